@@ -35,6 +35,11 @@ Inv_Ops       == P_OpsLower(st)
 \* from every state a full factorization can be reached again within m + 1 calls: nothing wedges the object
 \* (checked as: every state has a successor unless the call budget is used up)
 Inv_NoWedge   == Budget => ENABLED Next
+\* every step of Krylov.tla is a step of its history-free transcription KrylovApa, whose invariants Apalache proves inductive
+\* for every m and any number of calls
+Apa == INSTANCE KrylovApa WITH ph <- st.ph, kind <- st.kind, m <- st.m, dim <- st.dim, pend <- st.pend, cyc <- st.cyc, ops <- st.ops
+StepsAreApaSteps == [][Apa!Next]_st
+InitIsApaInit == Apa!Init
 \* negative control: "a compress cycle always ends at dim >= 2" is false (cycles down to one column are legal)
 Neg_DimAtLeast2 == st.ph = "fact" /\ st.cyc > 0 => st.dim >= 2
 =============================================================================
